@@ -1,21 +1,26 @@
 import Lemmas.RotationHist
 import Lemmas.RotationConc
+import Lemmas.RotationErr
+import Lemmas.RotationErrSize
 /-! # C12 — log rotation keeps the byte stream intact across size-bounded files
 
-Property theorems only.  The executable model is `Model/Rotation.lean` (namespace `Rot`): the directory of the log
+Property theorems only.  The executable models are `Model/Rotation.lean` (namespace `Rot`): the directory of the log
 file as `Nat → Option Bytes` (0 = `path`, i = `path-i`), `Rot.writeStep` = one pass from the label `retry:` of
-`Rotator.Write`, `Rot.iterate` = the retry loop (the driver `drv_c12` runs `Rot.iterate cfg 64`, `Rot.close`,
-`Rot.reopen`, `Rot.new` against the Go code after every operation), `Rot.rotateFiles` = the literal rename chain of
-`rotate()`.  A state is *in step* (`Rot.Track`) when the size counter equals the length of the current file whenever
-the handle is open; every state reachable from `New` is (`reachable_in_step`).
+`Rotator.Write`, `Rot.iterate` = the retry loop, `Rot.rotateFiles` = the literal rename chain of `rotate()`, `Rot.close`,
+`Rot.reopen`, `Rot.new` — and `Model/RotationErr.lean`: the same methods on a file system whose calls fail
+(`Rot.writeStepE`, `Rot.iterateE`, `Rot.rotateE`, `Rot.closeE`, `Rot.syncE`), which is what the driver `drv_c12` runs against
+the Go code after every operation (`Rot.iterateE cfg env 64`; with the calm environment it is the first model:
+`calm_model_is_plain_model`).  A state is *in step* (`Rot.Track`) when the size counter equals the length of the current
+file whenever the handle is open; every state reachable from `New` is (`reachable_in_step`, `faulty_reachable_in_step`).
 
 All theorems quantify over every configuration (`MaxSize`, `MaxBackups` any naturals), every initial directory
 (pre-existing current file and backups, gaps, files beyond `MaxBackups`, files larger than `MaxSize`) and every history
-of `Write`/`Close`/re-open/`Sync`.  Concurrency: the section "concurrent goroutines" runs the same methods as micro-step
-programs on the generic mutex machine (`Model/Mutex.lean`), in which every call is bracketed by Lock/Unlock by
-construction, and proves the clause about concurrent writers for every schedule OF THAT MACHINE.  That the Go code
-brackets every method with the mutex is not proved (the theorems stay true if a Lock is deleted from rotator.go); it is
-an assumption of the check, tied to the code only by its `stress` oracle with and without the race detector. -/
+of `Write`/`Close`/re-open/`Sync`; the `faulty_*` theorems in addition over every environment (which call fails when, how
+short a write is).  Concurrency: the section "concurrent goroutines" runs the same methods as micro-step programs on the
+generic mutex machine (`Model/Mutex.lean`), in which every call is bracketed by Lock/Unlock by construction, and proves
+the clause about concurrent writers for every schedule OF THAT MACHINE.  That the Go code brackets every access to its
+mutable state with the one mutex is decided separately on every run (`Props/C12Lock.lean`, about lock-state tables
+regenerated from the SSA form of the working tree); the concrete search for a failing schedule is the `stress` oracle. -/
 namespace C12
 open Rot
 
@@ -418,6 +423,171 @@ theorem unbracketed_size_accounting_wrong :
     (Mutex.exec (sys cfg) true (Mutex.init (fresh f) progs) sch).isNone = true := by
   intro cfg f progs sch
   exact ⟨by rfl, by rfl, by rfl⟩
+
+/-! ## a file system whose calls fail
+
+`Model/RotationErr.lean` runs the same methods on a file system in which every system call of rotator.go — MkdirAll,
+Stat, OpenFile, Close, Remove, every single Rename of the chain, the descriptor Write (which may be SHORT), Sync — asks
+an ENVIRONMENT whether it fails; the error returns of the Go code are transcribed branch for branch.  This is the model
+the driver executes (`Rot.iterateE cfg env 64`, `closeE`, `syncE`, `reopenE`); area `rotf` of the check compares it with
+the code under REAL faults (an immutable backup slot, the directory replaced by a regular file, a file size limit).
+The theorems below hold for EVERY environment (any call failing at any moment, any short write) and from ANY state —
+no hypothesis about reachability. -/
+
+/-- clause "every Write returns in bounded time" on a failing file system: whatever fails, the retry loop ends within two
+    passes — a rotation that succeeded leaves no current file, so the second pass cannot ask for another one; a
+    rotation that failed returns its error at once (it does not `goto retry`) -/
+theorem faulty_write_terminates (cfg : Cfg) (env : Env) (s : StE) (b : Bytes) :
+    ∃ n, n ≤ 2 ∧ (iterateE cfg env n s b).isRet = true :=
+  ⟨2, Nat.le_refl 2, by rw [iterateE_eq_writeE cfg env s b 0]; rfl⟩
+
+/-- … and the loop the driver runs (bound 64) is `writeE` -/
+theorem faulty_write_loop_bounded (cfg : Cfg) (env : Env) (s : StE) (b : Bytes) (k : Nat) :
+    iterateE cfg env (k + 2) s b = .ret (writeE cfg env s b).s (writeE cfg env s b).n (writeE cfg env s b).err :=
+  iterateE_eq_writeE cfg env s b k
+
+/-- what `Write` returns: never more than `len b`; no error exactly with the full length; an error from anything but
+    the descriptor write (MkdirAll, OpenFile, and inside rotate: Close, Remove, a Rename) comes with `n = 0` -/
+theorem faulty_write_returns (cfg : Cfg) (env : Env) (s : StE) (b : Bytes) :
+    (writeE cfg env s b).n ≤ b.length ∧ ((writeE cfg env s b).err = none → (writeE cfg env s b).n = b.length) ∧
+      (∀ c, (writeE cfg env s b).err = some c → c ≠ .writeFd → (writeE cfg env s b).n = 0) :=
+  writeE_ret cfg env s b
+
+/-- clauses "nothing duplicated, lost or reordered inside it" and "whole and unsplit" on a failing file system, one
+    call: after `Write(b)` returned `n` — whatever failed on the way, a rotation stopped half-way included — the retained
+    files (oldest backup to current file) are a suffix of what was retained before followed by EXACTLY the first `n`
+    bytes of `b` -/
+theorem short_write_places_prefix (cfg : Cfg) (env : Env) (s : StE) (b : Bytes) :
+    ∃ pre, retained cfg s.st.files ++ b.take (writeE cfg env s b).n =
+      pre ++ retained cfg (writeE cfg env s b).s.st.files :=
+  writeE_suffix cfg env s b
+
+/-- a `Write` that fails before the descriptor write places NOTHING: it reports `n = 0`, and the retained files afterwards
+    are a suffix of the retained files before (a failed rotation may have dropped the oldest slot; nothing of `b`, and
+    nothing else, was added, duplicated or reordered) -/
+theorem failed_write_adds_nothing (cfg : Cfg) (env : Env) (s : StE) (b : Bytes) (c : Sys)
+    (he : (writeE cfg env s b).err = some c) (hc : c ≠ .writeFd) :
+    (writeE cfg env s b).n = 0 ∧ ∃ pre, retained cfg s.st.files = pre ++ retained cfg (writeE cfg env s b).s.st.files := by
+  have hn := (writeE_ret cfg env s b).2.2 c he hc
+  obtain ⟨pre, h⟩ := writeE_suffix cfg env s b
+  rw [hn] at h
+  exact ⟨hn, pre, by simpa using h⟩
+
+/-- the suffix clause over every history on a failing file system, in terms of the ACKNOWLEDGED bytes (for every
+    `Write(b)` the first `n` bytes of `b`, `n` the returned count): initial retained content followed by everything
+    acknowledged, in order, ends with the retained files — for every environment, every history of
+    Write/Close/re-open/Sync, from any state -/
+theorem faulty_retained_is_suffix (cfg : Cfg) (env : Env) (s : StE) (ops : List Op) :
+    ∃ pre, retained cfg s.st.files ++ (ackedE cfg env s ops).flatten = pre ++ retained cfg (runE cfg env s ops).st.files :=
+  runE_suffix cfg env ops s
+
+/-- clause "at most MaxBackups backups exist" on a failing file system: no call, failed or not, touches an index above
+    `MaxBackups` -/
+theorem faulty_backup_frame (cfg : Cfg) (env : Env) (s : StE) (ops : List Op) (j : Nat) (hj : cfg.maxBackups < j) :
+    (runE cfg env s ops).st.files j = s.st.files j :=
+  runE_frame cfg env ops j hj s
+
+/-- every state reached on a failing file system has its size counter in step with the current file — for every
+    environment in which a failing `os.Stat` is followed by a failing `os.OpenFile` (`Rot.StatTied`; the code ignores
+    the error of Stat) -/
+theorem faulty_reachable_in_step (cfg : Cfg) (env : Env) (hst : StatTied env) (s : StE) (ht : Track s.st)
+    (ops : List Op) : Track (runE cfg env s ops).st :=
+  (runE_pred cfg env hst (fun _ => True) (fun _ _ => trivial) ops s ht (fun _ _ _ => trivial) (fun _ _ _ => trivial)).1
+
+/-- clause "no rotated file exceeds MaxSize unless a single write is itself larger" on a failing file system: after any
+    history of failing and succeeding calls every file is at most `MaxSize` long, or is a PREFIX of one record written
+    (an over-long record in a file of its own, possibly cut short by the file system), or an untouched initial file -/
+theorem faulty_size_bound (cfg : Cfg) (env : Env) (hst : StatTied env) (s : StE) (ht : Track s.st) (ops : List Op)
+    (i : Nat) (g : Bytes) (h : (runE cfg env s ops).st.files i = some g) :
+    g.length ≤ cfg.maxSize ∨ (∃ w ∈ writesOf ops, ∃ n, g = w.take n) ∨ (∃ j, s.st.files j = some g) :=
+  (runE_pred cfg env hst
+    (fun g => g.length ≤ cfg.maxSize ∨ (∃ w ∈ writesOf ops, ∃ n, g = w.take n) ∨ (∃ j, s.st.files j = some g))
+    (fun _ hf => Or.inl hf) ops s ht (fun w hw n => Or.inr (Or.inl ⟨w, hw, n, rfl⟩))
+    (fun j _ hf => Or.inr (Or.inr ⟨j, hf⟩))).2 i g h
+
+/-- CONTRAST, the hypothesis `StatTied` is needed because rotator.go IGNORES the error of `os.Stat`: if Stat fails and
+    the OpenFile after it succeeds, the size counter starts at 0 on a file that holds bytes; with MaxSize 3 and a file
+    `[9,9]`, `Write([1,1])` is appended — the file is 4 bytes long although no record is longer than 2 -/
+theorem ignored_stat_error_breaks_size_bound :
+    let cfg : Cfg := { maxSize := 3, maxBackups := 1 }
+    let f : Files := fun j => if j = 0 then some [9, 9] else none
+    let env : Env := { fails := fun _ c => c == .stat, wr := fun _ _ _ => none }
+    let r := writeE cfg env ⟨fresh f, 0⟩ [1, 1]
+    (r.n, r.err, r.s.st.files 0, r.s.st.size) = (2, none, some [9, 9, 1, 1], 2) ∧ ¬ Track r.s.st ∧ ¬ StatTied env := by
+  intro cfg f env r
+  refine ⟨by rfl, ?_, ?_⟩
+  · intro ht
+    obtain ⟨c, hc, hs⟩ := ht (by rfl)
+    have h0 : r.s.st.files 0 = some [9, 9, 1, 1] := by rfl
+    rw [h0] at hc
+    injection hc with hc
+    subst hc
+    have h2 : r.s.st.size = 2 := by rfl
+    rw [h2] at hs
+    cases hs
+  · intro hst
+    have := hst 0 (by rfl)
+    cases this
+
+/-- recovery: as soon as the environment is calm (from the current system call on), `Write` from ANY state — whatever
+    the earlier failures left behind: a closed handle, a stale size counter, a half-shifted directory — is the `write`
+    of the never-failing model and returns `(len b, nil)`; all theorems of the sections above apply to it -/
+theorem recovery_after_faults (cfg : Cfg) (env : Env) (s : StE) (b : Bytes) (h : CalmFrom env s.tick) :
+    (writeE cfg env s b).s.st = write cfg s.st b ∧ (writeE cfg env s b).n = b.length ∧ (writeE cfg env s b).err = none :=
+  let ⟨h1, h2, h3, _⟩ := writeE_calmFrom cfg env s b h; ⟨h1, h2, h3⟩
+
+/-- the model with the calm environment IS the never-failing model, over whole histories, and acknowledges every byte:
+    the theorems of the earlier sections are the special case `env = Env.calm` of what the driver runs -/
+theorem calm_model_is_plain_model (cfg : Cfg) (s : St) (t : Nat) (ops : List Op) :
+    (runE cfg Env.calm ⟨s, t⟩ ops).st = run cfg s ops ∧ ackedE cfg Env.calm ⟨s, t⟩ ops = writesOf ops :=
+  ⟨runE_calmFrom cfg Env.calm ops ⟨s, t⟩ (calmFrom_calm t), ackedE_calmFrom cfg Env.calm ops ⟨s, t⟩ (calmFrom_calm t)⟩
+
+/-- CONTRAST, mechanism "backup renaming chain": the loop of `rotate()` returns at the first `os.Rename` that fails.  The
+    variant that goes on with the remaining renames (`Rot.renameChainKeepGoing`) loses bytes from the MIDDLE of the
+    stream: MaxBackups 3, files `[1]` (current), `[2]`, `[3]`, the rename of backup 1 onto backup 2 fails — the next
+    rename puts the current file over backup 1, and the files read `[3],[1]`, which is no suffix of `[3],[2],[1]`;
+    the loop of the code stops and keeps `[3],[2],[1]` -/
+theorem rename_chain_must_stop_at_failure :
+    let env : Env := { fails := fun _ c => c == .rename 1 2 true, wr := fun _ _ _ => none }
+    let f : Files := fun j => if j = 0 then some [1] else if j = 1 then some [2] else if j = 2 then some [3] else none
+    retainedUpTo f 3 = [3, 2, 1] ∧
+    retainedUpTo (renameChainKeepGoing env f 0 3) 3 = [3, 1] ∧
+    (¬ ∃ pre, retainedUpTo f 3 = pre ++ retainedUpTo (renameChainKeepGoing env f 0 3) 3) ∧
+    retainedUpTo (renameChainE env f 0 3).1 3 = [3, 2, 1] ∧ (renameChainE env f 0 3).2.2 = some (.rename 1 2 true) := by
+  intro env f
+  have h1 : retainedUpTo f 3 = [3, 2, 1] := by rfl
+  have h2 : retainedUpTo (renameChainKeepGoing env f 0 3) 3 = [3, 1] := by rfl
+  refine ⟨h1, h2, ?_, by rfl, by rfl⟩
+  rw [h1, h2]
+  rintro ⟨pre, h⟩
+  have hl := congrArg List.length h
+  rcases pre with _ | ⟨a, _ | ⟨b, t⟩⟩
+  · simp at h
+  · simp at h
+  · simp only [List.length_append, List.length_cons, List.length_nil] at hl; omega
+
+/-- non-vacuity of the failing model: MaxSize 3, one backup, the file holds `[9,9]`; the rename of the current file fails
+    once (tick 1 is that call): `Write([1,1])` returns `(0, error)`, the directory is unchanged, the handle is closed;
+    the same call repeated under the calm environment rotates and returns `(2, nil)` -/
+example :
+    let cfg : Cfg := { maxSize := 3, maxBackups := 1 }
+    let f : Files := fun j => if j = 0 then some [9, 9] else none
+    let env : Env := { fails := fun _ c => c == .rename 0 1 true, wr := fun _ _ _ => none }
+    let r := writeE cfg env ⟨fresh f, 0⟩ [1, 1]
+    (r.n, r.err, r.s.st.files 0, r.s.st.files 1, r.s.st.isOpen) = (0, some (.rename 0 1 true), some [9, 9], none, false) ∧
+    (let r2 := writeE cfg Env.calm r.s [1, 1]
+     (r2.n, r2.err, r2.s.st.files 0, r2.s.st.files 1) = (2, none, some [1, 1], some [9, 9])) := by
+  exact ⟨by rfl, by rfl⟩
+
+/-- non-vacuity, short write: the file system accepts one byte of `[1,2]` — `Write` returns `(1, error)`, the file holds
+    `[9,9,1]`, the size counter counts the byte -/
+example :
+    let cfg : Cfg := { maxSize := 10, maxBackups := 1 }
+    let f : Files := fun j => if j = 0 then some [9, 9] else none
+    let env : Env := { fails := fun _ _ => false, wr := fun _ _ _ => some 1 }
+    let r := writeE cfg env ⟨fresh f, 0⟩ [1, 2]
+    (r.n, r.err, r.s.st.files 0, r.s.st.size) = (1, some .writeFd, some [9, 9, 1], 3) := by
+  rfl
 
 /-! ## New and its options -/
 
